@@ -837,6 +837,23 @@ func (rw *rewriter) sharedSliceExpr(x ast.Expr, stmt ast.Stmt) bool {
 	return false
 }
 
+// pkgCounter returns x as an identifier when it names a package-level
+// variable of an integer type declared in the package being rewritten.
+func (rw *rewriter) pkgCounter(x ast.Expr) *ast.Ident {
+	id, ok := ast.Unparen(x).(*ast.Ident)
+	if !ok {
+		return nil
+	}
+	v, ok := rw.info.Uses[id].(*types.Var)
+	if !ok || v.IsField() || v.Pkg() != rw.pkg.Types || v.Parent() != v.Pkg().Scope() {
+		return nil
+	}
+	if b, ok := v.Type().Underlying().(*types.Basic); !ok || b.Info()&types.IsInteger == 0 {
+		return nil
+	}
+	return id
+}
+
 // elemFields: slice fields of shared code objects whose *elements* are
 // rewritten in place while other routines may be evaluating the same code
 // (Function.Eval compiles a list argument on first use and stores the result
@@ -1413,6 +1430,16 @@ func (rw *rewriter) withMapProbes(list []ast.Stmt, quiet bool, fn string) []ast.
 					}
 				}
 			}
+			if len(ts.Lhs) == 1 && len(ts.Rhs) == 1 && ts.Tok != token.ASSIGN && ts.Tok != token.DEFINE && !rw.hasRealCall(ts.Rhs[0]) {
+				if id := rw.pkgCounter(ts.Lhs[0]); id != nil {
+					vw := "VarW"
+					if quiet {
+						vw = "VarWQ"
+					}
+					out = append(out, rw.varProbe(vw, id, s, fn))
+					rw.stats["counterw"]++
+				}
+			}
 			if len(ts.Lhs) == 1 && ts.Tok == token.ASSIGN && rw.sharedSliceExpr(ts.Lhs[0], s) && !rw.hasRealCall(ts.Rhs[0]) {
 				vw := "VarW"
 				if quiet {
@@ -1444,6 +1471,16 @@ func (rw *rewriter) withMapProbes(list []ast.Stmt, quiet bool, fn string) []ast.
 			}
 			hdr = append(hdr, ts)
 		case *ast.IncDecStmt:
+			if id := rw.pkgCounter(ts.X); id != nil {
+				// R12: v++ on a package-level integer of this package is a
+				// read-modify-write of a word every routine shares
+				vw := "VarW"
+				if quiet {
+					vw = "VarWQ"
+				}
+				out = append(out, rw.varProbe(vw, id, s, fn))
+				rw.stats["counterw"]++
+			}
 			if rw.fieldProbes {
 				if _, sel, ok := rw.fieldOf(ts.X); ok {
 					skip[sel] = true
